@@ -151,7 +151,8 @@ class C02(E1Prop):
                            'eval_pr']}
     NOPS = (6, 16)
     RUN_TIMEOUT = 1500
-    BUDGET = {'quick': 100, 'thorough': 1200}
+    BUDGET = {'quick': 80, 'thorough': 1200}
+    GRACE = 20
     MIN_RUNS = 60
     EXPECTED_PROBES = ['fault-variant', 'recovered-equal']
 
@@ -178,7 +179,7 @@ class C02(E1Prop):
     def next_op(self, w, rng, step, nsteps):
         op = self.gen.next(w)
         tier = getattr(self, 'tier', 'quick')
-        maxp = 2 if tier == 'quick' else 4
+        maxp = 1 if tier == 'quick' else 4
         if op['op'] == 'deliver' and self.nprobes < maxp and \
                 rng.random() < 0.5:
             self.nprobes += 1
@@ -221,6 +222,11 @@ class C02(E1Prop):
         if base['mut']:
             w.probe('probed-job-with-mutations')
         for fi, plan in enumerate(list(op['faults'])):
+            import time
+            if getattr(w, 'deadline', None) and fi > 0 and \
+                    time.time() > w.deadline:
+                w.probe('probe-truncated-by-wall-budget')
+                break
             try:
                 res = w.fork_variant(
                     lambda w_: self.variant(w_, ev, plan, op.get('wipe'),
